@@ -236,8 +236,129 @@ def WGood (w : World) : Prop := ∀ h, w.h = some h → Good h
     single update -/
 def OpOK (w : World) : LibOp → Prop
   | .create lay _ _ => LayInRange lay
+  | .createOver lay _ _ => LayInRange lay
   | .upd k _ _ _ => ∀ h, w.h = some h → IdOK h k
   | _ => True
+
+theorem newHeader_no_panic (o : FOps) (agg : Nat) (xff : UInt32) (lay : List (Int × Nat)) (s : String) :
+    newHeader o agg xff lay ≠ .error (.panic s) := by
+  intro hn
+  unfold newHeader at hn
+  dsimp only at hn
+  split at hn
+  · simp at hn
+  · split at hn
+    · simp at hn
+    · split at hn
+      · simp at hn
+      · split at hn <;> simp at hn
+
+/-- creating a file that is not there: a good handle, or an error that is not a panic -/
+theorem createFresh_good (o : FOps) (w : World) (lay : List (Int × Nat)) (agg : Nat) (xff : UInt32)
+    (wg : WGood w) (hop : LayInRange lay) :
+    WGood (w.createFresh o lay agg xff).1 ∧ ∀ s, (w.createFresh o lay agg xff).2 ≠ .fault (.panic s) := by
+  unfold World.createFresh
+  cases hc : createHandle o agg xff lay with
+  | ok r =>
+    obtain ⟨disk, h⟩ := r
+    refine ⟨?_, by intro s; simp⟩
+    intro h' hh; simp at hh; subst hh
+    exact create_good o agg xff lay hop disk h hc
+  | error e =>
+    refine ⟨wg, ?_⟩
+    intro s hs
+    simp only at hs
+    injection hs with hs; subst hs
+    unfold createHandle at hc
+    simp only [bind, Except.bind] at hc
+    cases hn : newHeader o agg xff lay with
+    | error e' =>
+      rw [hn] at hc; simp only at hc
+      injection hc with hc; subst hc
+      exact newHeader_no_panic o agg xff lay s hn
+    | ok hdr =>
+      rw [hn] at hc; simp only at hc
+      cases hw : writeAt (List.replicate hdr.expectedFileSize 0) 0 (encHeader hdr) with
+      | error e' =>
+        rw [hw] at hc; simp only at hc
+        injection hc with hc; subst hc
+        exact writeAt_np _ _ _ ⟨s, hw⟩
+      | ok v => rw [hw] at hc; simp [pure, Except.pure] at hc
+
+theorem resized_length (old : Bytes) (size : Nat) :
+    (old.take size ++ List.replicate (size - old.length) 0).length = size := by
+  simp only [List.length_append, List.length_take, List.length_replicate]
+  omega
+
+/-- a re-created file is a created file with other bytes behind the header -/
+theorem recreate_spec (o : FOps) (agg : Nat) (xff : UInt32) (lay : List (Int × Nat)) (old disk : Bytes) (h : Handle)
+    (hc : recreateHandle o agg xff lay old = .ok (disk, h)) :
+    ∃ d0 h0, createHandle o agg xff lay = .ok (d0, h0) ∧ h.hdr = h0.hdr ∧
+      disk.length = h.hdr.expectedFileSize ∧ h.view.length = disk.length ∧
+      h.view.take (encHeader h.hdr).length = encHeader h.hdr ∧
+      disk = old.take h.hdr.expectedFileSize ++ List.replicate (h.hdr.expectedFileSize - old.length) 0 := by
+  unfold recreateHandle at hc
+  cases hn : newHeader o agg xff lay with
+  | error e => rw [hn] at hc; simp at hc
+  | ok hd =>
+    rw [hn] at hc
+    simp only at hc
+    cases hw : writeAt (old.take hd.expectedFileSize ++ List.replicate (hd.expectedFileSize - old.length) 0) 0 (encHeader hd) with
+    | error e => rw [hw] at hc; simp at hc
+    | ok v =>
+      rw [hw] at hc
+      simp only at hc
+      injection hc with hc
+      injection hc with h1 h2
+      subst h1 h2
+      obtain ⟨hle, hv⟩ := writeAt_ok _ _ _ _ hw
+      have hlen := resized_length old hd.expectedFileSize
+      rw [hlen] at hle
+      have hw0 : ∃ v0, writeAt (List.replicate hd.expectedFileSize 0) 0 (encHeader hd) = .ok v0 := by
+        unfold writeAt
+        have : ¬ (0 + (encHeader hd).length > (List.replicate hd.expectedFileSize (0 : UInt8)).length) := by
+          simp; omega
+        rw [if_neg this]
+        exact ⟨_, rfl⟩
+      obtain ⟨v0, hv0⟩ := hw0
+      refine ⟨List.replicate hd.expectedFileSize 0, ⟨hd, v0⟩, ?_, rfl, hlen, ?_, ?_, rfl⟩
+      · unfold createHandle
+        simp only [bind, Except.bind, hn, hv0, pure, Except.pure]
+      · simp only
+        rw [hv]
+        simp only [List.take_zero, List.nil_append, List.length_append, List.length_drop, hlen]
+        omega
+      · simp only
+        rw [hv]
+        simp
+
+theorem recreate_good (o : FOps) (agg : Nat) (xff : UInt32) (lay : List (Int × Nat)) (hl : LayInRange lay)
+    (old disk : Bytes) (h : Handle) (hc : recreateHandle o agg xff lay old = .ok (disk, h)) : Good h := by
+  obtain ⟨d0, h0, hc0, hh, _⟩ := recreate_spec o agg xff lay old disk h hc
+  have g0 := create_good o agg xff lay hl d0 h0 hc0
+  refine ⟨⟨?_, ?_⟩, ?_⟩
+  · rw [hh]; exact g0.1.valid
+  · rw [hh]; exact g0.1.range
+  · rw [hh]; exact g0.2
+
+theorem recreate_no_panic (o : FOps) (agg : Nat) (xff : UInt32) (lay : List (Int × Nat)) (old : Bytes) (s : String) :
+    recreateHandle o agg xff lay old ≠ .error (.panic s) := by
+  intro hc
+  unfold recreateHandle at hc
+  cases hn : newHeader o agg xff lay with
+  | error e' =>
+    rw [hn] at hc; simp only at hc
+    injection hc with hc; subst hc
+    exact newHeader_no_panic o agg xff lay s hn
+  | ok hdr =>
+    rw [hn] at hc; simp only at hc
+    cases hw : writeAt (old.take hdr.expectedFileSize ++ List.replicate (hdr.expectedFileSize - old.length) 0) 0
+        (encHeader hdr) with
+    | error e' =>
+      rw [hw] at hc; simp only at hc
+      injection hc with hc; subst hc
+      exact writeAt_np _ _ _ ⟨s, hw⟩
+    | ok v => rw [hw] at hc; simp at hc
 
 theorem step_good (o : FOps) (w : World) (op : LibOp) (wg : WGood w) (hop : OpOK w op) :
     WGood (w.step o op).1 ∧ ∀ s, (w.step o op).2 ≠ .fault (.panic s) := by
@@ -246,42 +367,25 @@ theorem step_good (o : FOps) (w : World) (op : LibOp) (wg : WGood w) (hop : OpOK
     simp only [World.step]
     cases hd : w.disk with
     | some d => exact ⟨by intro h hh; simp at hh, by intro s; simp⟩
-    | none =>
+    | none => exact createFresh_good o w lay agg xff wg hop
+  | createOver lay agg xff =>
+    simp only [World.step]
+    cases hd : w.disk with
+    | none => exact createFresh_good o w lay agg xff wg hop
+    | some d =>
       simp only
-      cases hc : createHandle o agg xff lay with
+      cases hc : recreateHandle o agg xff lay d with
       | ok r =>
         obtain ⟨disk, h⟩ := r
         refine ⟨?_, by intro s; simp⟩
         intro h' hh; simp at hh; subst hh
-        exact create_good o agg xff lay hop disk h hc
+        exact recreate_good o agg xff lay hop d disk h hc
       | error e =>
-        refine ⟨wg, ?_⟩
+        refine ⟨by intro h hh; simp at hh, ?_⟩
         intro s hs
         simp only at hs
         injection hs with hs; subst hs
-        unfold createHandle at hc
-        simp only [bind, Except.bind] at hc
-        cases hn : newHeader o agg xff lay with
-        | error e' =>
-          rw [hn] at hc; simp only at hc
-          injection hc with hc; subst hc
-          unfold newHeader at hn
-          dsimp only at hn
-          split at hn
-          · simp at hn
-          · split at hn
-            · simp at hn
-            · split at hn
-              · simp at hn
-              · split at hn <;> simp at hn
-        | ok hdr =>
-          rw [hn] at hc; simp only at hc
-          cases hw : writeAt (List.replicate hdr.expectedFileSize 0) 0 (encHeader hdr) with
-          | error e' =>
-            rw [hw] at hc; simp only at hc
-            injection hc with hc; subst hc
-            exact writeAt_np _ _ _ ⟨s, hw⟩
-          | ok v => rw [hw] at hc; simp [pure, Except.pure] at hc
+        exact recreate_no_panic o agg xff lay d s hc
   | open_ =>
     simp only [World.step]
     cases hd : w.disk with
